@@ -58,6 +58,13 @@ func (l *Lexer) lexToSpaceTokenEat(currentChar rune) strings.Builder {
 	for {
 		char := l.reader.Read()
 
+		// EOF
+		if char == 0 {
+			l.reader.Unread()
+
+			return buf
+		}
+
 		if unicode.IsSpace(char) {
 			if char != '\n' {
 				l.IsSpace = true
@@ -182,7 +189,7 @@ func (l *Lexer) lexIdentifier(currentChar rune) {
 		}
 
 		if !isIdentifierChar(char) {
-			if strings.Contains(buf.String(), ":\"") && char != '\n' && char != '"' {
+			if strings.Contains(buf.String(), ":\"") && char != '\n' && char != '"' && char != 0 {
 				buf.WriteRune(char)
 				continue
 			}
@@ -210,6 +217,12 @@ func (l *Lexer) lexString(start rune) {
 		char := l.reader.Read()
 
 		if char == start {
+			break
+		}
+
+		// EOF (unterminated string)
+		if char == 0 {
+			l.reader.Unread()
 			break
 		}
 
@@ -250,6 +263,11 @@ func (l *Lexer) skipLineComment() {
 		char = l.reader.Read()
 
 		if char == '\n' {
+			break
+		}
+
+		// EOF
+		if char == 0 {
 			break
 		}
 
